@@ -14,6 +14,7 @@ import Micm.Model.ProcessSet
 import Mathlib.Tactic.Ring
 import Mathlib.Algebra.BigOperators.Group.List.Basic
 import Mathlib.Algebra.Field.Basic
+import Mathlib.Data.List.Nodup
 
 namespace Micm
 
@@ -420,6 +421,11 @@ theorem dMonomial_eq_leibniz (y : Nat → K) (rs : List Nat) (j : Nat) :
         List.prod_cons]
       ring
 
+theorem sum_map_mul_left' (c : K) (l : List K) : (l.map (fun x => c * x)).sum = c * l.sum := by
+  induction l with
+  | nil => simp
+  | cons a l ih => simp [ih, mul_add]
+
 theorem dMonomialLeibniz_eq_pos (y : Nat → K) (rs : List Nat) (j : Nat) :
     dMonomialLeibniz y rs j = dMonomialPos y rs j := by
   induction rs with
@@ -443,11 +449,11 @@ theorem dMonomialLeibniz_eq_pos (y : Nat → K) (rs : List Nat) (j : Nat) :
     · subst h
       simp only [List.getElem?_cons_zero, decide_true, if_true, List.map_cons, List.sum_cons,
         List.eraseIdx_cons_zero, one_mul]
-      rw [hm, List.sum_map_mul_left]
+      rw [hm, sum_map_mul_left']
     · have : ¬ (some a = some j) := by simpa using h
       simp only [h, List.getElem?_cons_zero, this, decide_false, if_false, zero_mul, zero_add,
         Bool.false_eq_true]
-      rw [hm, List.sum_map_mul_left]
+      rw [hm, sum_map_mul_left']
 
 /-- `dMonomial` is the product-rule derivative (the closed form is not ad hoc) -/
 theorem dMonomial_eq_pos (y : Nat → K) (rs : List Nat) (j : Nat) :
@@ -471,5 +477,772 @@ theorem count_erase_add (rs : List Nat) (i j : Nat) (h : j ∈ rs) :
     simp [hij, this]
 
 end Deriv
+
+/-! ## E. the second constructor loop -/
+
+section Build
+variable {α : Type}
+
+theorem dependents_true (ind : Nat) (l : List Nat) : dependents ind l true = l := by
+  induction l with
+  | nil => rfl
+  | cons a l ih => simp [dependents, ih]
+
+/-- the `found` flag removes exactly the first occurrence of `ind` -/
+theorem dependents_false (ind : Nat) (l : List Nat) : dependents ind l false = l.erase ind := by
+  induction l with
+  | nil => rfl
+  | cons a l ih =>
+    by_cases h : a = ind
+    · subst h; simp [dependents, dependents_true]
+    · have h' : ¬ (a == ind) = true := by simpa using h
+      simp [dependents, h, ih, List.erase_cons_tail h']
+
+/-- resolved ids of the non-parameterized reactants (unknown names dropped; `reactIdsOf` fails
+    on those) -/
+def specReactIds (m : NameMap) (l : List SpecRef) : List Nat :=
+  l.filterMap fun r => if r.param then none else nmLookup m r.name
+
+/-- resolved (id, yield) of the non-parameterized products -/
+def specProdIds (m : NameMap) (l : List (SpecRef × α)) : List (Nat × α) :=
+  l.filterMap fun p => if p.1.param then none else (nmLookup m p.1.name).map fun i => (i, p.2)
+
+/-- a process with its resolved reactant ids and products, as `ProcessSet.build` uses it -/
+def resolveProc (m : NameMap) (p : Process α) : Process α × List Nat × List (Nat × α) :=
+  (p, specReactIds m p.reactants, specProdIds m p.products)
+
+theorem reactIdsOf_ok (m : NameMap) (l : List SpecRef) (rs : List Nat)
+    (h : reactIdsOf m l = .ok rs) : specReactIds m l = rs := by
+  induction l generalizing rs with
+  | nil => simp [reactIdsOf] at h; simp [specReactIds, h]
+  | cons r l ih =>
+    unfold reactIdsOf at h
+    unfold specReactIds
+    rw [List.filterMap_cons]
+    by_cases hp : r.param = true
+    · simp only [hp, if_true] at h ⊢
+      exact ih rs h
+    · simp only [hp] at h ⊢
+      cases hl : nmLookup m r.name with
+      | none => simp [hl] at h
+      | some i =>
+        simp only [hl] at h
+        cases hr : reactIdsOf m l with
+        | error e => simp [hr, bind, Except.bind] at h
+        | ok rs' =>
+          simp only [hr, bind, Except.bind, pure, Except.pure, Bool.false_eq_true, if_false,
+            Except.ok.injEq] at h
+          have := ih rs' hr
+          unfold specReactIds at this
+          simp [this, h]
+
+theorem prodIdsOf_ok (m : NameMap) (l : List (SpecRef × α)) (pr : List (Nat × α))
+    (h : prodIdsOf m l = .ok pr) : specProdIds m l = pr := by
+  induction l generalizing pr with
+  | nil => simp [prodIdsOf] at h; simp [specProdIds, h]
+  | cons r l ih =>
+    unfold prodIdsOf at h
+    unfold specProdIds
+    rw [List.filterMap_cons]
+    by_cases hp : r.1.param = true
+    · simp only [hp, if_true] at h ⊢
+      exact ih pr h
+    · simp only [hp] at h ⊢
+      cases hl : nmLookup m r.1.name with
+      | none => simp [hl] at h
+      | some i =>
+        simp only [hl] at h
+        cases hr : prodIdsOf m l with
+        | error e => simp [hr, bind, Except.bind] at h
+        | ok pr' =>
+          simp only [hr, bind, Except.bind, pure, Except.pure, Bool.false_eq_true, if_false,
+            Except.ok.injEq] at h
+          have := ih pr' hr
+          unfold specProdIds at this
+          simp [this, h]
+
+theorem resolve_mapM_ok (m : NameMap) (procs : List (Process α))
+    (R : List (Process α × List Nat × List (Nat × α)))
+    (h : (procs.mapM fun p => do
+        let rs ← reactIdsOf m p.reactants
+        let pr ← prodIdsOf m p.products
+        pure (p, rs, pr)) = Except.ok R) : R = procs.map (resolveProc m) := by
+  refine ((mapM_except_ok_iff _ (resolveProc m) ?_ procs R).mp h).2
+  intro p v hv
+  cases hr : reactIdsOf m p.reactants with
+  | error e => simp [hr, bind, Except.bind] at hv
+  | ok rs =>
+    cases hp : prodIdsOf m p.products with
+    | error e => simp [hr, hp, bind, Except.bind] at hv
+    | ok pr =>
+      simp only [hr, hp, bind, Except.bind, pure, Except.pure, Except.ok.injEq] at hv
+      rw [← hv, resolveProc, reactIdsOf_ok m _ _ hr, prodIdsOf_ok m _ _ hp]
+
+/-- the forcing tables are the per-process concatenations -/
+theorem buildForcing_ok (m : NameMap) (procs : List (Process α)) (t : PSTables α)
+    (h : buildForcing m procs = .ok t) :
+    t.nReact = procs.map (fun p => (specReactIds m p.reactants).length) ∧
+    t.reactIds = procs.flatMap (fun p => specReactIds m p.reactants) ∧
+    t.nProd = procs.map (fun p => (specProdIds m p.products).length) ∧
+    t.prodIds = procs.flatMap (fun p => (specProdIds m p.products).map (·.1)) ∧
+    t.yields = procs.flatMap (fun p => (specProdIds m p.products).map (·.2)) := by
+  induction procs generalizing t with
+  | nil => simp [buildForcing] at h; subst h; simp
+  | cons p ps ih =>
+    unfold buildForcing at h
+    cases hr : reactIdsOf m p.reactants with
+    | error e => simp [hr, bind, Except.bind] at h
+    | ok rs =>
+      cases hp : prodIdsOf m p.products with
+      | error e => simp [hr, hp, bind, Except.bind] at h
+      | ok pr =>
+        cases ht : buildForcing m ps with
+        | error e => simp [hr, hp, ht, bind, Except.bind] at h
+        | ok t' =>
+          simp only [hr, hp, ht, bind, Except.bind, pure, Except.pure, Except.ok.injEq] at h
+          obtain ⟨h1, h2, h3, h4, h5⟩ := ih t' ht
+          subst h
+          simp [reactIdsOf_ok m _ _ hr, prodIdsOf_ok m _ _ hp, h1, h2, h3, h4, h5]
+
+/-- `C02_build_entries`: the Jacobian tables of a successfully built process set are the
+    concatenated streams of `buildJacobianEntries (sortByIdx m) (procs.map (resolveProc m))`;
+    the forcing tables are those of `buildForcing`. -/
+theorem build_ok (procs : List (Process α)) (m : NameMap) (t : PSTables α)
+    (h : ProcessSet.build procs m = .ok t) :
+    let es := buildJacobianEntries (sortByIdx m) (procs.map (resolveProc m))
+    t.jInfo = es.map (·.info) ∧ t.jReactIds = es.flatMap (·.deps) ∧
+    t.jProdIds = es.flatMap (fun e => e.prods.map (·.1)) ∧
+    t.jYields = es.flatMap (fun e => e.prods.map (·.2)) ∧
+    t.nReact = procs.map (fun p => (specReactIds m p.reactants).length) ∧
+    t.reactIds = procs.flatMap (fun p => specReactIds m p.reactants) ∧
+    t.nProd = procs.map (fun p => (specProdIds m p.products).length) ∧
+    t.prodIds = procs.flatMap (fun p => (specProdIds m p.products).map (·.1)) ∧
+    t.yields = procs.flatMap (fun p => (specProdIds m p.products).map (·.2)) := by
+  unfold ProcessSet.build at h
+  cases ht : buildForcing m procs with
+  | error e => simp [ht, bind, Except.bind] at h
+  | ok t0 =>
+    simp only [ht, bind, Except.bind] at h
+    split at h
+    · cases h
+    · rename_i R hR
+      have := resolve_mapM_ok m procs R hR
+      subst this
+      simp only [pure, Except.pure, Except.ok.injEq] at h
+      subst h
+      exact ⟨rfl, rfl, rfl, rfl, buildForcing_ok m procs t0 ht⟩
+
+/-! ### the name map -/
+
+omit α in
+theorem nmLookup_of_mem (m : NameMap) (hk : (m.map (·.1)).Nodup) (nv : String × Nat) (h : nv ∈ m) :
+    nmLookup m nv.1 = some nv.2 := by
+  induction m with
+  | nil => cases h
+  | cons e m ih =>
+    rw [List.map_cons, List.nodup_cons] at hk
+    unfold nmLookup
+    rw [List.find?_cons]
+    rcases List.mem_cons.mp h with rfl | h'
+    · simp
+    · have hne : ¬ (e.1 == nv.1) = true := by
+        intro he
+        have : e.1 = nv.1 := by simpa using he
+        exact hk.1 (this ▸ List.mem_map.mpr ⟨nv, h', rfl⟩)
+      simp only [hne]
+      exact ih hk.2 h'
+
+omit α in
+theorem mem_of_nmLookup (m : NameMap) (s : String) (v : Nat) (h : nmLookup m s = some v) :
+    (s, v) ∈ m := by
+  unfold nmLookup at h
+  cases hf : List.find? (fun e => e.1 == s) m with
+  | none => simp [hf] at h
+  | some e =>
+    simp only [hf, Option.map_some, Option.some.injEq] at h
+    have h1 := List.find?_some hf
+    have h2 := List.mem_of_find?_eq_some hf
+    have : e.1 = s := by simpa using h1
+    rw [← this, ← h]; exact h2
+
+omit α in
+theorem specReactIds_cons_param (m : NameMap) (r : SpecRef) (l : List SpecRef) (h : r.param = true) :
+    specReactIds m (r :: l) = specReactIds m l := by simp [specReactIds, h]
+
+omit α in
+theorem specReactIds_cons_none (m : NameMap) (r : SpecRef) (l : List SpecRef) (h : ¬ r.param = true)
+    (hl : nmLookup m r.name = none) : specReactIds m (r :: l) = specReactIds m l := by
+  simp [specReactIds, h, hl]
+
+omit α in
+theorem specReactIds_cons_some (m : NameMap) (r : SpecRef) (l : List SpecRef) (h : ¬ r.param = true)
+    (i : Nat) (hl : nmLookup m r.name = some i) :
+    specReactIds m (r :: l) = i :: specReactIds m l := by
+  simp [specReactIds, h, hl]
+
+omit α in
+/-- under distinct keys and distinct indices, "name equals the variable's name" and "resolved id
+    equals the variable's index" select the same reactant occurrences -/
+theorem count_name_eq_count_id (m : NameMap) (hk : (m.map (·.1)).Nodup) (hv : (m.map (·.2)).Nodup)
+    (nv : String × Nat) (hnv : nv ∈ m) (l : List SpecRef)
+    (hparam : ∀ r ∈ l, r.param = true → nmLookup m r.name = none) :
+    (l.filter (fun r => r.name == nv.1)).length = (specReactIds m l).count nv.2 := by
+  induction l with
+  | nil => rfl
+  | cons r l ih =>
+    have ih' := ih (fun r hr => hparam r (by simp [hr]))
+    by_cases hn : r.name = nv.1
+    · have hl : nmLookup m r.name = some nv.2 := hn ▸ nmLookup_of_mem m hk nv hnv
+      have hp : ¬ r.param = true := fun hp => by
+        have := hparam r (by simp) hp
+        rw [hl] at this; cases this
+      rw [specReactIds_cons_some m r l hp _ hl, List.count_cons_self,
+        List.filter_cons_of_pos (p := fun r : SpecRef => r.name == nv.1) (a := r) (by simp [hn]),
+        List.length_cons, ih']
+    · have hne : ¬ (r.name == nv.1) = true := by simpa using hn
+      rw [List.filter_cons_of_neg (p := fun r : SpecRef => r.name == nv.1) (a := r) hne, ih']
+      by_cases hp : r.param = true
+      · rw [specReactIds_cons_param m r l hp]
+      · cases hl : nmLookup m r.name with
+        | none => rw [specReactIds_cons_none m r l hp hl]
+        | some v =>
+          have hmem := mem_of_nmLookup m _ _ hl
+          have : v ≠ nv.2 := by
+            intro hvv
+            have := List.inj_on_of_nodup_map hv hmem hnv hvv
+            exact hn (by rw [← this])
+          rw [specReactIds_cons_some m r l hp _ hl, List.count_cons_of_ne this]
+
+omit α in
+theorem specReactIds_subset (m : NameMap) (l : List SpecRef) :
+    ∀ x ∈ specReactIds m l, x ∈ m.map (·.2) := by
+  intro x hx
+  unfold specReactIds at hx
+  obtain ⟨r, _, hr⟩ := List.mem_filterMap.mp hx
+  by_cases hp : r.param = true
+  · simp [hp] at hr
+  · simp only [hp] at hr
+    exact List.mem_map.mpr ⟨_, mem_of_nmLookup m _ _ hr, rfl⟩
+
+omit α in
+theorem insertByIdx_perm (a : String × Nat) (l : List (String × Nat)) :
+    (insertByIdx a l).Perm (a :: l) := by
+  induction l with
+  | nil => exact List.Perm.refl _
+  | cons b l ih =>
+    unfold insertByIdx
+    split
+    · exact List.Perm.refl _
+    · exact (List.Perm.cons b ih).trans (List.Perm.swap a b l)
+
+omit α in
+theorem sortByIdx_perm (m : NameMap) : (sortByIdx m).Perm m := by
+  unfold sortByIdx
+  induction m with
+  | nil => exact List.Perm.refl _
+  | cons a m ih => exact (insertByIdx_perm a _).trans (List.Perm.cons a ih)
+
+/-! ### the entry list -/
+
+/-- the entry created for variable `nv`, process `pip.1` (resolved) with index `pip.2` -/
+def mkEntry (nv : String × Nat) (pip : (Process α × List Nat × List (Nat × α)) × Nat) : JEntry α :=
+  { info := ⟨pip.2, nv.2, (pip.1.2.1.erase nv.2).length, pip.1.2.2.length⟩,
+    deps := pip.1.2.1.erase nv.2, prods := pip.1.2.2 }
+
+theorem buildJacobianEntries_eq (names : List (String × Nat))
+    (R : List (Process α × List Nat × List (Nat × α))) :
+    buildJacobianEntries names R = names.flatMap fun nv => R.zipIdx.flatMap fun pip =>
+      List.replicate (pip.1.1.reactants.filter (fun r => r.name == nv.1)).length (mkEntry nv pip) := by
+  unfold buildJacobianEntries
+  congr 1
+  funext nv
+  congr 1
+  funext pip
+  obtain ⟨⟨p, rs, pr⟩, ip⟩ := pip
+  simp only [dependents_false, mkEntry]
+  rw [List.map_const']
+
+theorem mkEntry_WF (nv : String × Nat) (pip : (Process α × List Nat × List (Nat × α)) × Nat) :
+    (mkEntry nv pip).WF := ⟨rfl, rfl⟩
+
+theorem mem_buildJacobianEntries (names : List (String × Nat))
+    (R : List (Process α × List Nat × List (Nat × α))) (e : JEntry α)
+    (h : e ∈ buildJacobianEntries names R) :
+    ∃ nv ∈ names, ∃ pip ∈ R.zipIdx, (∃ r ∈ pip.1.1.reactants, r.name = nv.1) ∧ e = mkEntry nv pip := by
+  rw [buildJacobianEntries_eq] at h
+  obtain ⟨nv, hnv, h⟩ := List.mem_flatMap.mp h
+  obtain ⟨pip, hpip, h⟩ := List.mem_flatMap.mp h
+  obtain ⟨hne, he⟩ := List.mem_replicate.mp h
+  refine ⟨nv, hnv, pip, hpip, ?_, he⟩
+  have : 0 < (pip.1.1.reactants.filter (fun r => r.name == nv.1)).length := Nat.pos_of_ne_zero hne
+  obtain ⟨r, hr⟩ := List.exists_mem_of_length_pos this
+  obtain ⟨hr1, hr2⟩ := List.mem_filter.mp hr
+  exact ⟨r, hr1, by simpa using hr2⟩
+
+theorem buildJacobianEntries_WF (names : List (String × Nat))
+    (R : List (Process α × List Nat × List (Nat × α))) :
+    ∀ e ∈ buildJacobianEntries names R, e.WF := by
+  intro e he
+  obtain ⟨nv, _, pip, _, _, rfl⟩ := mem_buildJacobianEntries names R e he
+  exact mkEntry_WF nv pip
+
+end Build
+
+/-! ## F. `NonZeroJacobianElements` -/
+
+section NonZero
+
+theorem mem_setInsert (x a : Pair) (s : List Pair) : x ∈ setInsert a s ↔ x = a ∨ x ∈ s := by
+  induction s with
+  | nil => simp [setInsert]
+  | cons b l ih =>
+    unfold setInsert
+    split
+    · simp
+    · split
+      · rename_i h
+        have : a = b := by simpa using h
+        subst this; simp
+      · simp only [List.mem_cons, ih]
+        constructor
+        · rintro (h | h | h) <;> simp [h]
+        · rintro (h | h | h) <;> simp [h]
+
+theorem mem_foldl_setInsert {β : Type} (f : β → Pair) (l : List β) (s : List Pair) (x : Pair) :
+    x ∈ l.foldl (fun s d => setInsert (f d) s) s ↔ x ∈ s ∨ ∃ d ∈ l, x = f d := by
+  induction l generalizing s with
+  | nil => simp
+  | cons a l ih =>
+    rw [List.foldl_cons, ih, mem_setInsert]
+    simp only [List.mem_cons, exists_eq_or_imp]
+    constructor
+    · rintro ((h | h) | h) <;> simp [h]
+    · rintro (h | h | h) <;> simp [h]
+
+/-- the double loop of one reaction (`l` = the independent variables still to visit) -/
+theorem mem_nonZero_step (rs ps l : List Nat) (s : List Pair) (x : Pair) :
+    x ∈ l.foldl (fun s ind =>
+        let s := rs.foldl (fun s dep => setInsert (dep, ind) s) s
+        ps.foldl (fun s dep => setInsert (dep, ind) s) s) s
+      ↔ x ∈ s ∨ (x.2 ∈ l ∧ (x.1 ∈ rs ∨ x.1 ∈ ps)) := by
+  induction l generalizing s with
+  | nil => simp
+  | cons a l ih =>
+    rw [List.foldl_cons, ih]
+    simp only []
+    rw [mem_foldl_setInsert (fun dep => (dep, a)), mem_foldl_setInsert (fun dep => (dep, a))]
+    obtain ⟨x1, x2⟩ := x
+    simp only [Prod.mk.injEq, List.mem_cons]
+    constructor
+    · rintro (((h | ⟨d, hd, rfl, rfl⟩) | ⟨d, hd, rfl, rfl⟩) | ⟨h1, h2⟩)
+      · exact Or.inl h
+      · exact Or.inr ⟨Or.inl rfl, Or.inl hd⟩
+      · exact Or.inr ⟨Or.inl rfl, Or.inr hd⟩
+      · exact Or.inr ⟨Or.inr h1, h2⟩
+    · rintro (h | ⟨rfl | h1, h2⟩)
+      · exact Or.inl (Or.inl (Or.inl h))
+      · rcases h2 with h2 | h2
+        · exact Or.inl (Or.inl (Or.inr ⟨x1, h2, rfl, rfl⟩))
+        · exact Or.inl (Or.inr ⟨x1, h2, rfl, rfl⟩)
+      · exact Or.inr ⟨h1, h2⟩
+
+/-- `nonZeroGo` on concatenated streams: the result contains exactly the initial set and, for
+    every reaction, every (dependent, independent) pair with the independent variable among the
+    reactants and the dependent one among the reactants or the products. -/
+theorem mem_nonZeroGo (rxs : List (List Nat × List Nat)) (r1 r2 : List Nat) (s : List Pair)
+    (x : Pair) :
+    x ∈ nonZeroGo (rxs.map (·.1.length)) (rxs.map (·.2.length)) (rxs.flatMap (·.1) ++ r1)
+        (rxs.flatMap (·.2) ++ r2) s
+      ↔ x ∈ s ∨ ∃ rx ∈ rxs, x.2 ∈ rx.1 ∧ (x.1 ∈ rx.1 ∨ x.1 ∈ rx.2) := by
+  induction rxs generalizing s with
+  | nil => simp [nonZeroGo]
+  | cons rx rxs ih =>
+    simp only [List.map_cons, List.flatMap_cons, List.append_assoc, nonZeroGo]
+    rw [List.take_left' rfl, List.drop_left' rfl, List.take_left' rfl, List.drop_left' rfl, ih,
+      mem_nonZero_step]
+    simp only [List.mem_cons, exists_eq_or_imp]
+    constructor
+    · rintro ((h | h) | h) <;> simp [h]
+    · rintro (h | h | h) <;> simp [h]
+
+/-! ### the result is a strictly sorted (hence duplicate-free) list, like `std::set` -/
+
+/-- strictly increasing in the lexicographic order of `std::pair` -/
+def PairSorted (s : List Pair) : Prop := s.Pairwise (fun a b => pairLt a b = true)
+
+theorem pairLt_trans {a b c : Pair} (h1 : pairLt a b = true) (h2 : pairLt b c = true) :
+    pairLt a c = true := by
+  simp only [pairLt, Bool.or_eq_true, Bool.and_eq_true, decide_eq_true_eq, beq_iff_eq] at *
+  omega
+
+theorem pairLt_of_not {a b : Pair} (h1 : ¬ pairLt a b = true) (h2 : ¬ (a == b) = true) :
+    pairLt b a = true := by
+  have h2' : a ≠ b := by simpa using h2
+  have : a.1 ≠ b.1 ∨ a.2 ≠ b.2 := by
+    by_contra hc
+    have hc1 : a.1 = b.1 := by omega
+    have hc2 : a.2 = b.2 := by omega
+    exact h2' (Prod.ext hc1 hc2)
+  simp only [pairLt, Bool.or_eq_true, Bool.and_eq_true, decide_eq_true_eq, beq_iff_eq] at *
+  omega
+
+theorem setInsert_sorted (a : Pair) (s : List Pair) (h : PairSorted s) : PairSorted (setInsert a s) := by
+  induction s with
+  | nil => simp [setInsert, PairSorted]
+  | cons b l ih =>
+    unfold PairSorted at h ih ⊢
+    rw [List.pairwise_cons] at h
+    unfold setInsert
+    split
+    · rename_i hab
+      rw [List.pairwise_cons]
+      refine ⟨?_, List.pairwise_cons.mpr h⟩
+      intro c hc
+      rcases List.mem_cons.mp hc with rfl | hc
+      · exact hab
+      · exact pairLt_trans hab (h.1 c hc)
+    · split
+      · exact List.pairwise_cons.mpr h
+      · rename_i hab hne
+        rw [List.pairwise_cons]
+        refine ⟨?_, ih h.2⟩
+        intro c hc
+        rcases (mem_setInsert c a l).mp hc with rfl | hc
+        · exact pairLt_of_not hab hne
+        · exact h.1 c hc
+
+theorem foldl_setInsert_sorted {β : Type} (f : β → Pair) (l : List β) (s : List Pair)
+    (h : PairSorted s) : PairSorted (l.foldl (fun s d => setInsert (f d) s) s) := by
+  induction l generalizing s with
+  | nil => exact h
+  | cons a l ih => exact ih _ (setInsert_sorted _ _ h)
+
+theorem nonZeroGo_sorted (nr np rids pids : List Nat) (s : List Pair) (h : PairSorted s) :
+    PairSorted (nonZeroGo nr np rids pids s) := by
+  fun_induction nonZeroGo nr np rids pids s with
+  | case1 nr nrs np nps rids pids s rs ps s' ih =>
+    apply ih
+    have : ∀ (l : List Nat) (s : List Pair), PairSorted s → PairSorted (l.foldl (fun s ind =>
+        let s := rs.foldl (fun s dep => setInsert (dep, ind) s) s
+        ps.foldl (fun s dep => setInsert (dep, ind) s) s) s) := by
+      intro l
+      induction l with
+      | nil => intro s hs; exact hs
+      | cons a l ihl =>
+        intro s hs
+        exact ihl _ (foldl_setInsert_sorted (fun dep => (dep, a)) ps _
+          (foldl_setInsert_sorted (fun dep => (dep, a)) rs _ hs))
+    exact this rs s h
+  | case2 => exact h
+
+theorem PairSorted.nodup {s : List Pair} (h : PairSorted s) : s.Nodup := by
+  unfold PairSorted at h
+  refine List.Pairwise.imp ?_ h
+  intro a b hab heq
+  subst heq
+  simp [pairLt] at hab
+
+end NonZero
+
+/-! ### pattern completeness -/
+
+section Complete
+variable {α : Type}
+
+/-- `NonZeroJacobianElements` of a built process set, in terms of the resolved reactions -/
+theorem mem_nonZero_of_build (procs : List (Process α)) (m : NameMap) (t : PSTables α)
+    (hb : ProcessSet.build procs m = .ok t) (x : Pair) :
+    x ∈ t.nonZeroJacobianElements ↔ ∃ p ∈ procs, x.2 ∈ specReactIds m p.reactants ∧
+      (x.1 ∈ specReactIds m p.reactants ∨ x.1 ∈ (specProdIds m p.products).map (·.1)) := by
+  obtain ⟨_, _, _, _, h1, h2, h3, h4, _⟩ := build_ok procs m t hb
+  unfold PSTables.nonZeroJacobianElements
+  rw [h1, h2, h3, h4]
+  have := mem_nonZeroGo (procs.map fun p => (specReactIds m p.reactants,
+    (specProdIds m p.products).map (·.1))) [] [] [] x
+  simp only [List.map_map, List.flatMap_map, Function.comp_def, List.append_nil, List.length_map,
+    List.not_mem_nil, false_or] at this
+  rw [this]
+  constructor
+  · rintro ⟨_, hrx, h⟩
+    obtain ⟨p, hp, rfl⟩ := List.mem_map.mp hrx
+    exact ⟨p, hp, h⟩
+  · rintro ⟨p, hp, h⟩
+    exact ⟨_, List.mem_map.mpr ⟨p, hp, rfl⟩, h⟩
+
+omit α in
+theorem ind_mem_specReactIds (m : NameMap) (hk : (m.map (·.1)).Nodup) (nv : String × Nat)
+    (hnv : nv ∈ m) (l : List SpecRef)
+    (hparam : ∀ r ∈ l, r.param = true → nmLookup m r.name = none)
+    (h : ∃ r ∈ l, r.name = nv.1) : nv.2 ∈ specReactIds m l := by
+  obtain ⟨r, hr, hn⟩ := h
+  have hl : nmLookup m r.name = some nv.2 := hn ▸ nmLookup_of_mem m hk nv hnv
+  have hp : ¬ r.param = true := fun hp => by
+    have := hparam r hr hp
+    rw [hl] at this; cases this
+  exact List.mem_filterMap.mpr ⟨r, hr, by simp [hp, hl]⟩
+
+/-- every position a Jacobian entry writes is a declared non-zero element -/
+theorem entries_in_nonZero (procs : List (Process α)) (m : NameMap) (t : PSTables α)
+    (hb : ProcessSet.build procs m = .ok t) (hk : (m.map (·.1)).Nodup)
+    (hparam : ∀ p ∈ procs, ∀ r ∈ p.reactants, r.param = true → nmLookup m r.name = none) :
+    ∀ e ∈ buildJacobianEntries (sortByIdx m) (procs.map (resolveProc m)),
+      (∀ x ∈ e.deps, (x, e.info.ind) ∈ t.nonZeroJacobianElements) ∧
+      (e.info.ind, e.info.ind) ∈ t.nonZeroJacobianElements ∧
+      ∀ pr ∈ e.prods, (pr.1, e.info.ind) ∈ t.nonZeroJacobianElements := by
+  intro e he
+  obtain ⟨nv, hnv, pip, hpip, hr, rfl⟩ := mem_buildJacobianEntries _ _ e he
+  have hnv' : nv ∈ m := (sortByIdx_perm m).mem_iff.mp hnv
+  obtain ⟨p, hp, hpe⟩ := List.mem_map.mp (List.fst_mem_of_mem_zipIdx hpip)
+  obtain ⟨pp, ip⟩ := pip
+  simp only at hpe hr
+  subst hpe
+  have hind := ind_mem_specReactIds m hk nv hnv' p.reactants (hparam p hp) hr
+  simp only [mkEntry, resolveProc, mem_nonZero_of_build procs m t hb]
+  refine ⟨fun x hx => ⟨p, hp, hind, Or.inl (List.mem_of_mem_erase hx)⟩, ⟨p, hp, hind, Or.inl hind⟩,
+    fun pr hpr => ⟨p, hp, hind, Or.inr (List.mem_map.mpr ⟨pr, hpr, rfl⟩)⟩⟩
+
+end Complete
+
+/-! ## G. assembling the sums -/
+
+section Assemble
+variable {K : Type} [CommRing K]
+
+/-- net stoichiometric coefficient of species `i` in a reaction with resolved reactants `rs` and
+    products `pr`: `Σ yields of the products equal to i − multiplicity of i among the reactants`
+    (the forcing is `f_i = Σ_r jacNet_r(i) · k_r · Π_{l ∈ rs_r} y_l`, cf. C01) -/
+def jacNet (rs : List Nat) (pr : List (Nat × K)) (i : Nat) : K :=
+  ((pr.filter (fun p => p.1 = i)).map (·.2)).sum - (rs.count i : K)
+
+theorem sum_map_flatMap {β γ : Type} (l : List β) (f : β → List γ) (g : γ → K) :
+    ((l.flatMap f).map g).sum = (l.map fun a => ((f a).map g).sum).sum := by
+  induction l with
+  | nil => simp
+  | cons a l ih => simp [List.flatMap_cons, ih]
+
+theorem sum_map_replicate {γ : Type} (n : Nat) (c : γ) (g : γ → K) :
+    ((List.replicate n c).map g).sum = (n : K) * g c := by
+  induction n with
+  | zero => simp
+  | succ n ih =>
+    rw [List.replicate_succ, List.map_cons, List.sum_cons, ih]; push_cast; ring
+
+theorem sum_map_neg {β : Type} (l : List β) (f : β → K) :
+    (l.map fun a => - f a).sum = - (l.map f).sum := by
+  induction l with
+  | nil => simp
+  | cons a l ih => simp [ih]; ring
+
+theorem sum_map_zero {β : Type} (l : List β) (f : β → K) (h : ∀ a ∈ l, f a = 0) :
+    (l.map f).sum = 0 := by
+  induction l with
+  | nil => simp
+  | cons a l ih => simp [h a (by simp), ih (fun a ha => h a (by simp [ha]))]
+
+/-- a sum over a list with distinct keys selects at most one term -/
+theorem sum_ite_nodup (l : List (String × Nat)) (hv : (l.map (·.2)).Nodup) (j : Nat) (S : K) :
+    (l.map fun nv => if nv.2 = j then S else 0).sum = if j ∈ l.map (·.2) then S else 0 := by
+  induction l with
+  | nil => simp
+  | cons a l ih =>
+    rw [List.map_cons, List.nodup_cons] at hv
+    rw [List.map_cons, List.sum_cons, ih hv.2]
+    by_cases h : a.2 = j
+    · have : j ∉ l.map (·.2) := h ▸ hv.1
+      simp [h, this]
+    · have h' : ¬ j = a.2 := fun e => h e.symm
+      have hm : (j ∈ List.map (·.2) (a :: l)) ↔ (j ∈ List.map (·.2) l) := by
+        rw [List.map_cons, List.mem_cons]
+        exact ⟨fun h0 => h0.resolve_left h', Or.inr⟩
+      simp only [h, if_false, zero_add, hm]
+
+/-- sum over the entry list = sum over variables and processes, weighted by the number of
+    occurrences of the variable's name -/
+theorem sum_buildJacobianEntries (names : List (String × Nat))
+    (R : List (Process K × List Nat × List (Nat × K))) (G : JEntry K → K) :
+    ((buildJacobianEntries names R).map G).sum
+      = (names.map fun nv => (R.zipIdx.map fun pip =>
+          ((pip.1.1.reactants.filter (fun r => r.name == nv.1)).length : K)
+            * G (mkEntry nv pip)).sum).sum := by
+  rw [buildJacobianEntries_eq, sum_map_flatMap]
+  congr 1
+  apply List.map_congr_left
+  intro nv _
+  rw [sum_map_flatMap]
+  congr 1
+  apply List.map_congr_left
+  intro pip _
+  rw [sum_map_replicate]
+
+section Rank
+variable (P : Nat → Nat → Prop) (rk : Nat → Nat → Nat)
+  (hinj : ∀ r c r' c', P r c → P r' c' → rk r c = rk r' c' → r = r' ∧ c = c')
+include hinj
+
+omit [CommRing K] in
+theorem count_map_rk (l : List Nat) (ind i j : Nat) (hl : ∀ x ∈ l, P x ind) (hij : P i j) :
+    (l.map (fun x => rk x ind)).count (rk i j) = if ind = j then l.count i else 0 := by
+  induction l with
+  | nil => simp
+  | cons a l ih =>
+    rw [List.map_cons, List.count_cons, ih (fun x hx => hl x (by simp [hx])), List.count_cons]
+    by_cases h : rk a ind = rk i j
+    · obtain ⟨rfl, rfl⟩ := hinj _ _ _ _ (hl a (by simp)) hij h
+      simp
+    · have : ¬ (a = i ∧ ind = j) := fun ⟨h1, h2⟩ => h (by rw [h1, h2])
+      by_cases hj : ind = j
+      · subst hj
+        have : ¬ a = i := fun h1 => this ⟨h1, rfl⟩
+        simp [h, this]
+      · simp [h, hj]
+
+theorem sum_filter_rk (l : List (Nat × K)) (ind i j : Nat) (hl : ∀ pr ∈ l, P pr.1 ind)
+    (hij : P i j) :
+    (((l.map fun p => (rk p.1 ind, p.2)).filter (fun p => p.1 = rk i j)).map (·.2)).sum
+      = if ind = j then ((l.filter (fun p => p.1 = i)).map (·.2)).sum else 0 := by
+  induction l with
+  | nil => simp
+  | cons a l ih =>
+    rw [List.map_cons, List.filter_cons, List.filter_cons]
+    have ih' := ih (fun x hx => hl x (by simp [hx]))
+    by_cases h : rk a.1 ind = rk i j
+    · obtain ⟨h1, rfl⟩ := hinj _ _ _ _ (hl a (by simp)) hij h
+      simp only [decide_true, if_true, List.map_cons, List.sum_cons, ih', h1]
+    · have : ¬ (a.1 = i ∧ ind = j) := fun ⟨h1, h2⟩ => h (by rw [h1, h2])
+      by_cases hj : ind = j
+      · subst hj
+        have : ¬ a.1 = i := fun h1 => this ⟨h1, rfl⟩
+        simp only [h, decide_false, Bool.false_eq_true, if_false, ih', if_true, this]
+      · simp only [h, decide_false, Bool.false_eq_true, if_false, ih', hj]
+
+/-- coefficient with which one entry hits the slot of element `(i, j)`: zero unless the entry's
+    independent variable is `j`; then (occurrences of `i` among the dependents) + [i = j] − Σ yields
+    of the products equal to `i`. -/
+theorem entry_coef (e : JEntry K) (i j : Nat) (hd : ∀ x ∈ e.deps, P x e.info.ind)
+    (hdiag : P e.info.ind e.info.ind) (hp : ∀ pr ∈ e.prods, P pr.1 e.info.ind) (hij : P i j) :
+    (((entryAddIds rk e).count (rk i j) : Nat) : K)
+        - (((entrySubIds rk e).filter (fun p => p.1 = rk i j)).map (·.2)).sum
+      = if e.info.ind = j then
+          (((e.deps.count i + (if i = j then 1 else 0) : Nat) : K)
+            - ((e.prods.filter (fun p => p.1 = i)).map (·.2)).sum)
+        else 0 := by
+  unfold entryAddIds entrySubIds
+  rw [List.count_append, count_map_rk P rk hinj e.deps e.info.ind i j hd hij,
+    sum_filter_rk P rk hinj e.prods e.info.ind i j hp hij, List.count_singleton]
+  by_cases hj : e.info.ind = j
+  · subst hj
+    by_cases hi : i = e.info.ind
+    · subst hi; simp
+    · have : ¬ (rk e.info.ind e.info.ind = rk i e.info.ind) := fun h =>
+        hi (hinj _ _ _ _ hdiag hij h).1.symm
+      simp [hi, this]
+  · have : ¬ (rk e.info.ind e.info.ind = rk i j) := fun h => hj (hinj _ _ _ _ hdiag hij h).2
+    simp [hj, this]
+
+end Rank
+
+/-- one (variable, process) pair: (number of entries) × (entry contribution) is minus the net
+    coefficient times the rate constant times the formal derivative of the rate monomial -/
+theorem pair_contribution (y : Nat → K) (kr : K) (rs : List Nat) (pr : List (Nat × K)) (i j : Nat) :
+    (rs.count j : K) * ((((rs.erase j).count i + (if i = j then 1 else 0) : Nat) : K)
+        - ((pr.filter (fun p => p.1 = i)).map (·.2)).sum) * (kr * ((rs.erase j).map y).prod)
+      = - (jacNet rs pr i * (kr * dMonomial y rs j)) := by
+  unfold jacNet dMonomial
+  by_cases h : j ∈ rs
+  · rw [count_erase_add rs i j h]; ring
+  · simp [List.count_eq_zero_of_not_mem h]
+
+/-- The value of every present slot after `SubtractJacobianTerms`, through `ProcessSet.build`. -/
+theorem jacobian_value (procs : List (Process K)) (m : NameMap) (t : PSTables K)
+    (hb : ProcessSet.build procs m = .ok t)
+    (hk : (m.map (·.1)).Nodup) (hv : (m.map (·.2)).Nodup)
+    (hparam : ∀ p ∈ procs, ∀ r ∈ p.reactants, r.param = true → nmLookup m r.name = none)
+    (p : Pattern) (flat : List Nat) (hf : t.jacobianFlatIds p = .ok flat)
+    (hinj : ∀ r c r' c' q, p.rank r c = .ok q → p.rank r' c' = .ok q → r = r' ∧ c = c')
+    (k y J0 : Array K) (hrange : ∀ r c q, p.rank r c = .ok q → q < J0.size)
+    (i j q : Nat) (hq : p.rank i j = .ok q) :
+    rd (t.subtractJacobianCell flat k y J0) q
+      = rd J0 q - (procs.zipIdx.map fun pi =>
+          jacNet (specReactIds m pi.1.reactants) (specProdIds m pi.1.products) i
+            * (rd k pi.2 * dMonomial (rd y) (specReactIds m pi.1.reactants) j)).sum := by
+  obtain ⟨h1, h2, h3, h4, _⟩ := build_ok procs m t hb
+  generalize hes : buildJacobianEntries (sortByIdx m) (procs.map (resolveProc m)) = es at h1 h2 h3 h4
+  have hwf : ∀ e ∈ es, e.WF := hes ▸ buildJacobianEntries_WF _ _
+  -- flat ids
+  unfold PSTables.jacobianFlatIds at hf
+  rw [h1, h2, h3] at hf
+  have hf' := (flatIdsGo_decode p es hwf [] [] flat).mp (by simpa using hf)
+  obtain ⟨hpres, hflat⟩ := hf'
+  -- decode
+  unfold PSTables.subtractJacobianCell
+  rw [h1, h2, h4, hflat]
+  have hdec := jacGo_decode k y p.rk es hwf [] [] [] J0
+  simp only [List.append_nil] at hdec
+  rw [hdec]
+  have hqs : q < J0.size := hrange i j q hq
+  rw [jacEntries_rd k y (fun e : JEntry K => e.info.pid) (fun e => e.deps) (entryAddIds p.rk)
+    (entrySubIds p.rk) es J0 q hqs]
+  -- rank injectivity in the `Present`/`rk` form
+  have hinj' : ∀ r c r' c', p.Present r c → p.Present r' c' → p.rk r c = p.rk r' c' →
+      r = r' ∧ c = c' := by
+    intro r c r' c' h h' he
+    unfold Pattern.Present at h h'
+    rw [he] at h
+    exact hinj r c r' c' _ h h'
+  have hij : p.Present i j := p.present_of_ok i j q hq
+  have hqk : q = p.rk i j := (p.rank_ok_rk i j q hq).symm
+  -- per-entry coefficient
+  have hcoef : ∀ e ∈ es,
+      (((entryAddIds p.rk e).count q : K)
+          - (((entrySubIds p.rk e).filter (fun p => p.1 = q)).map (·.2)).sum)
+        * (rd k e.info.pid * (e.deps.map (rd y)).prod)
+      = (if e.info.ind = j then
+          (((e.deps.count i + (if i = j then 1 else 0) : Nat) : K)
+            - ((e.prods.filter (fun p => p.1 = i)).map (·.2)).sum)
+        else 0) * (rd k e.info.pid * (e.deps.map (rd y)).prod) := by
+    intro e he
+    obtain ⟨hd, hdiag, hp⟩ := hpres e he
+    rw [hqk, entry_coef p.Present p.rk hinj' e i j hd hdiag hp hij]
+  rw [List.map_congr_left hcoef, ← hes, sum_buildJacobianEntries]
+  -- per (variable, process) pair
+  have hnames : ∀ nv ∈ sortByIdx m,
+      ((procs.map (resolveProc m)).zipIdx.map fun pip =>
+          ((pip.1.1.reactants.filter (fun r => r.name == nv.1)).length : K)
+            * ((if (mkEntry nv pip).info.ind = j then
+                ((((mkEntry nv pip).deps.count i + (if i = j then 1 else 0) : Nat) : K)
+                  - (((mkEntry nv pip).prods.filter (fun p => p.1 = i)).map (·.2)).sum)
+              else 0) * (rd k (mkEntry nv pip).info.pid * ((mkEntry nv pip).deps.map (rd y)).prod))).sum
+      = if nv.2 = j then
+          - (procs.zipIdx.map fun pi =>
+            jacNet (specReactIds m pi.1.reactants) (specProdIds m pi.1.products) i
+              * (rd k pi.2 * dMonomial (rd y) (specReactIds m pi.1.reactants) j)).sum
+        else 0 := by
+    intro nv hnv
+    have hnv' : nv ∈ m := (sortByIdx_perm m).mem_iff.mp hnv
+    rw [List.zipIdx_map, List.map_map]
+    by_cases hj : nv.2 = j
+    · rw [if_pos hj, ← sum_map_neg]
+      congr 1
+      apply List.map_congr_left
+      intro pi hpi
+      have hpp : pi.1 ∈ procs := List.fst_mem_of_mem_zipIdx hpi
+      simp only [Function.comp_def, Prod.map, id, mkEntry, resolveProc, hj, if_true]
+      rw [count_name_eq_count_id m hk hv nv hnv' pi.1.reactants (hparam pi.1 hpp), hj,
+        ← pair_contribution]
+      ring
+    · rw [if_neg hj]
+      apply sum_map_zero
+      intro pi _
+      simp [mkEntry, hj]
+  rw [List.map_congr_left hnames, sum_ite_nodup _ (((sortByIdx_perm m).map _).nodup_iff.mpr hv)]
+  by_cases hjm : j ∈ (sortByIdx m).map (·.2)
+  · rw [if_pos hjm]; ring
+  · rw [if_neg hjm]
+    have hjm' : j ∉ m.map (·.2) := fun h => hjm (((sortByIdx_perm m).map _).mem_iff.mpr h)
+    rw [sum_map_zero _ _ (fun pi _ => by
+      rw [dMonomial_of_not_mem _ _ _ (fun h => hjm' (specReactIds_subset m _ _ h))]; ring)]
+    ring
+
+end Assemble
 
 end Micm
